@@ -293,14 +293,17 @@ struct World {
     hr: Vec<Vec<u64>>,
     h: Handles,
     engine: QueryEngine,
+    last_id: u64,
 }
 impl World {
     fn new(copies: usize) -> Self {
         World { copies, store: GraphStore::new(), hn: vec![Vec::new(); copies], hr: vec![Vec::new(); copies],
-                h: Handles { node: HashMap::new(), rel: HashMap::new() }, engine: QueryEngine::new() }
+                h: Handles { node: HashMap::new(), rel: HashMap::new() }, engine: QueryEngine::new(), last_id: 0 }
     }
-    /// apply one graph step to every copy; returns the distinct results ("ok"/"err")
+    /// apply one graph step to every copy; returns the distinct results ("ok"/"err"); `self.last_id` = the real id the
+    /// first copy gave to a created node / relationship
     fn apply(&mut self, step: &Value, do_index: bool, do_compact: bool) -> Vec<String> {
+        self.last_id = 0;
         let op = gs(step, "op");
         let mut res: Vec<String> = Vec::new();
         let mut note = |r: bool| {
@@ -341,6 +344,9 @@ impl World {
                                 }
                             }
                             self.hn[c].push(id.as_u64());
+                            if c == 0 {
+                                self.last_id = id.as_u64();
+                            }
                             self.h.node.insert(id.as_u64(), self.hn[c].len() as i64);
                             note(ok);
                         }
@@ -353,6 +359,9 @@ impl World {
                             }
                             match self.store.create_edge_with_properties(NodeId::new(s), NodeId::new(d), gs(step, "t"), pm) {
                                 Ok(e) => {
+                                    if c == 0 {
+                                        self.last_id = e.as_u64();
+                                    }
                                     self.hr[c].push(e.as_u64());
                                     self.h.rel.insert(e.as_u64(), self.hr[c].len() as i64);
                                     note(true);
@@ -443,7 +452,7 @@ fn run(scripts: &str, trace: &str, opts: &Opts) -> Res<()> {
                     tr.emit(event_from(step, x))?;
                 } else {
                     let r = catch(|| w.apply(step, true, true)).unwrap_or_else(|p| vec![format!("panic:{p}")]);
-                    tr.emit(event_from(step, json!({"res": r})))?;
+                    tr.emit(event_from(step, json!({"res": r, "id": w.last_id})))?;
                 }
             }
             continue;
@@ -454,6 +463,7 @@ fn run(scripts: &str, trace: &str, opts: &Opts) -> Res<()> {
         // step index -> distinct outcome json string -> (outcome, cfgs)
         let mut outs: Vec<BTreeMap<String, (Value, Vec<String>)>> = s.steps.iter().map(|_| BTreeMap::new()).collect();
         let mut ress: Vec<Vec<String>> = s.steps.iter().map(|_| Vec::new()).collect();
+        let mut ids: Vec<Vec<u64>> = s.steps.iter().map(|_| Vec::new()).collect();
         for k in if any_lin { vec![1usize, copies] } else { vec![1usize] } {
             for idx in [false, true] {
                 for cmp in [false, true] {
@@ -465,6 +475,9 @@ fn run(scripts: &str, trace: &str, opts: &Opts) -> Res<()> {
                                 if !ress[i].contains(&x) {
                                     ress[i].push(x);
                                 }
+                            }
+                            if !ids[i].contains(&w.last_id) {
+                                ids[i].push(w.last_id);
                             }
                             continue;
                         }
@@ -504,7 +517,8 @@ fn run(scripts: &str, trace: &str, opts: &Opts) -> Res<()> {
                 tr.emit(event_from(step, Value::Object(per_step[i].clone())))?;
             } else {
                 ress[i].sort();
-                tr.emit(event_from(step, json!({"res": ress[i]})))?;
+                // the real id must not depend on the configuration (ids: one element); the spec binds it
+                tr.emit(event_from(step, json!({"res": ress[i], "id": ids[i][0], "ids": ids[i]})))?;
             }
         }
     }
